@@ -25,7 +25,7 @@ CHECKS = {
     "C03": (
         "exploration",
         "exhaustive small-scope enumeration of filter programs x designed indexes on the real compiler + SQL repository, judged by an independent set-algebra evaluator over raw rows",
-        "Every atom of a 197-atom alphabet (file globs incl. page names that begin with the letters of the f= prefix) alone on three indexes and on sub-indexes of a six-note pool, every ordered pair under AND and OR (quick: over a third of the atoms), and every expression shape with up to 3 (thorough: 4) leaves and paren depth 2 over core alphabets is compiled by build_zorg_query and executed by SQLRepo.get_notes_by_query on an index built by the real db create; the returned ZID set (and absence of duplicates) must equal the set computed by mc/models/query_model.holds_* over the rows read back with sqlite3. Single atoms also go through the CLI.",
+        "Every atom of a 197-atom alphabet (file globs incl. page names that begin with the letters of the f= prefix) alone on three indexes (plus nine filters on a 600-note index in which 520 notes match a negated case-sensitive text filter) and on sub-indexes of a six-note pool, every ordered pair under AND and OR (quick: over a third of the atoms), and every expression shape with up to 3 (thorough: 4) leaves and paren depth 2 over core alphabets is compiled by build_zorg_query and executed by SQLRepo.get_notes_by_query on an index built by the real db create; the returned ZID set (and absence of duplicates) must equal the set computed by mc/models/query_model.holds_* over the rows read back with sqlite3. Single atoms also go through the CLI.",
         "Index contents are designed corpora plus sub-indexes of a pool, not all indexes; typed comparisons only on consistently typed keys; lower-case page names.",
         "§4 C03",
     ),
@@ -46,7 +46,7 @@ CHECKS = {
     "C06": (
         "model_checking",
         "explicit-state BFS over edit/reindex/day-advance histories on real directories with a differential oracle (incremental index vs fresh db create)",
-        "Breadth-first search to depth 3 (quick) / 4 (thorough) from six initial states (one level less from the four derived ones: after a stamped edit, after a page was deleted and the index followed, after a plain reindex was refused half-way with a new page already indexed, after one run that wrote a ZID back, dropped a vanished page and took in a new page) over 18 events (edits, add/delete/rename/restore pages, break/repair the last page, plain and path-restricted reindex, day advance); states are real directories deduplicated on a canonical digest (files, raw index, hash map, next ids, whitelist, day, guards). In every state reached by a plain reindex the raw index must equal that of a fresh db create on a copy of the final files, files must be settled, and 16 queries must be answered identically by both indexes.",
+        "Breadth-first search to depth 3 (quick) / 4 (thorough) from six initial states (plus a small directory with a 140-note page of 12 KiB whose last note is edited; one level less from the four derived ones: after a stamped edit, after a page was deleted and the index followed, after a plain reindex was refused half-way with a new page already indexed, after one run that wrote a ZID back, dropped a vanished page and took in a new page) over 18 events (edits, add/delete/rename/restore pages, break/repair the last page, plain and path-restricted reindex, day advance); states are real directories deduplicated on a canonical digest (files, raw index, hash map, next ids, whitelist, day, guards). In every state reached by a plain reindex the raw index must equal that of a fresh db create on a copy of the final files, files must be settled, and 16 queries must be answered identically by both indexes.",
         "One small directory and a fixed menu of edits; rows no query can observe (orphan tag/link rows) are not judged.",
         "§4 C06",
     ),
@@ -60,7 +60,7 @@ CHECKS = {
     "C08": (
         "exploration",
         "deviation-bounded exhaustive enumeration (0, 1, 2 edits away from valid seed pages + all short token strings) on the real compiler and index commands",
-        "Every single-character deletion/insertion/substitution over an alphabet of up to 30 symbols, every line and token edit of up to 12 seed pages that cover every construct, all pairs of line edits (thorough), and all token strings of length <= 3 are compiled by the real compiler; the oracle is the generated parser's own syntax-error counter (read from the intercepted parser instance, independent of ErrorManager) plus a line-shape item count, and an independent parse-tree walk decides whether a note was reachable. One representative per outcome class and 56 valid pages with unusual ZID-less items are pushed through real db create / db create -f / db reindex and the index is read back with sqlite3 (after a refused reindex it must still hold the page as it was); whitelist look-alike paths and the whitelist life cycle (db create -f whitelists exactly the broken page; still broken, fixed, broken again) are driven through create and reindex.",
+        "Every single-character deletion/insertion/substitution over an alphabet of up to 30 symbols, every line and token edit of up to 12 seed pages that cover every construct, all pairs of line edits (thorough), and all token strings of length <= 3 are compiled by the real compiler; the oracle is the generated parser's own syntax-error counter (read from the intercepted parser instance, independent of ErrorManager) plus a line-shape item count, and an independent parse-tree walk decides whether a note was reachable. One representative per outcome class and 56 valid pages with unusual ZID-less items and a 150-note page changed only at its end are pushed through real db create / db create -f / db reindex and the index is read back with sqlite3 (after a refused reindex it must still hold the page as it was); whitelist look-alike paths and the whitelist life cycle (db create -f whitelists exactly the broken page; still broken, fixed, broken again) are driven through create and reindex.",
         "Lexer-level token-recognition errors (tab, NUL, non-ASCII) are outside the parser's report and only judged for totality; item count for damaged-but-accepted pages uses a line-shape rule.",
         "§4 C08",
     ),
@@ -116,7 +116,7 @@ CHECKS = {
     "C16": (
         "exploration",
         "exhaustive enumeration of ordered pattern maps x targets x flags through the real init_from_template and CLI, judged by an oracle-side jinja2 rendering",
-        "Every ordered pattern map of size <= 2 (quick) / <= 3 (thorough) over 9 patterns (incl. ones that match only a prefix of the name and one with an optional group that takes no part in the match) x 10 targets x {missing, existing} x overwrite x explicit template x 4 variable maps through the real function, plus 13 maps (all variable maps, incl. a date) through `zorg template init` with the map read from YAML in order: existing-and-not-forced files keep bytes and mtime, missing files get exactly the oracle's rendering of the first matching pattern's template body, nothing (no file, no directory) is created without a template, and a second invocation changes nothing. The same contract through `zorg edit TARGET` (a stand-in editor records the file as it is when the editor opens) and `zorg action open` on a line holding [[TARGET]]; and two initialisations in one process where only the first target's pattern captures a variable (function, caller-owned variable map, `zorg edit A B`).",
+        "Every ordered pattern map of size <= 2 (quick) / <= 3 (thorough) over 9 patterns (incl. ones that match only a prefix of the name and one with an optional group that takes no part in the match; also pairs of overlapping patterns that share ONE template file, and existing zero-byte targets) x 10 targets x {missing, existing} x overwrite x explicit template x 4 variable maps through the real function, plus 13 maps (all variable maps, incl. a date) through `zorg template init` with the map read from YAML in order: existing-and-not-forced files keep bytes and mtime, missing files get exactly the oracle's rendering of the first matching pattern's template body, nothing (no file, no directory) is created without a template, and a second invocation changes nothing. The same contract through `zorg edit TARGET` (a stand-in editor records the file as it is when the editor opens) and `zorg action open` on a line holding [[TARGET]]; and two initialisations in one process where only the first target's pattern captures a variable (function, caller-owned variable map, `zorg edit A B`).",
         "ZorgTemplateManager's process-global scratch directory is re-created per worker; edit / action open / note move reach the same function.",
         "§4 C16",
     ),
@@ -176,7 +176,7 @@ def main() -> None:
             {"property_id": p["id"], "reason": NOT_YET}
             for p in props if p["id"] not in CHECKS
         ],
-        "notes": "See DESIGN.md. Known findings: known_findings.json. Fix commits in /repo start with 'fix:'. A violation is believed only after it reproduces in a fresh replay - alone, or together with the evaluations that preceded it in its worker process (then the replay file carries that history).",
+        "notes": "See DESIGN.md. Known findings: known_findings.json. Fix commits in /repo start with 'fix:'. A violation is believed only after it reproduces in a fresh replay - alone, or together with the evaluations that preceded it in its worker process (then the replay file carries that history). An exception that escapes from zorg's own code while a check drives it with an input of the property's domain is reported as a violation (signature exception-in-zorg:...), an exception raised by the check's own code as a harness error (exit 2).",
     }
     (VERIF / "MANIFEST.json").write_text(json.dumps(man, indent=1) + "\n")
     print("wrote MANIFEST.json with", len(checks), "checks")
